@@ -62,6 +62,15 @@ func (s c15Scenario) String() string {
 
 const panicMarker = 0x40000000
 
+// c15AcceptErr: the temporary accept errors rotate between a plain temporary one (EMFILE-like)
+// and one that is temporary and a time-out as well (an expired listener deadline, ETIMEDOUT)
+func c15AcceptErr(i int) error {
+	if i%2 == 1 {
+		return memnet.TimeoutError{}
+	}
+	return &memnet.TempError{Msg: "accept: too many open files"}
+}
+
 func runC15(c *ev.Case, ctx *lib.Ctx, sc c15Scenario, lc *logCapture) {
 	sig := func(op string) ev.Sig {
 		kinds := ""
@@ -112,14 +121,14 @@ func runC15(c *ev.Case, ctx *lib.Ctx, sc c15Scenario, lc *logCapture) {
 	for i := 0; i < sc.K; i++ {
 		if i == sc.acceptPos {
 			for e := 0; e < sc.acceptErr; e++ {
-				ln.OfferErr(&memnet.TempError{Msg: "accept: too many open files"})
+				ln.OfferErr(c15AcceptErr(e + len(sc.faults)))
 			}
 		}
 		ln.Offer(conns[i])
 	}
 	if sc.acceptPos >= sc.K {
 		for e := 0; e < sc.acceptErr; e++ {
-			ln.OfferErr(&memnet.TempError{Msg: "accept: too many open files"})
+			ln.OfferErr(c15AcceptErr(e + len(sc.faults)))
 		}
 	}
 	// per-connection streams
@@ -268,8 +277,22 @@ func runC15(c *ev.Case, ctx *lib.Ctx, sc c15Scenario, lc *logCapture) {
 	reports := 0
 	for more := true; more; {
 		select {
-		case <-errorReports:
+		case rep := <-errorReports:
 			reports++
+			// what the application is told: an error, and the connection it happened on
+			ok := rep != nil && rep.Error != nil && rep.Conn != nil
+			if ok {
+				ok = false
+				for i := 0; i < sc.K; i++ {
+					if faulty[i] && rep.Conn.RemoteAddr().String() == conns[i].Remote.String() {
+						ok = true
+					}
+				}
+			}
+			if !ok {
+				c.Fail(sig("error-report-content"), nil, nil, "the error report offered for undecodable input does not name a connection on which undecodable input occurred, or carries no error: %+v; %s", rep, desc)
+				return
+			}
 		default:
 			more = false
 		}
